@@ -61,11 +61,21 @@ class ServerContext(object):
         # and that the token always has 30th bit set
         token &= 0x7fffffff
         token |= 0x40000000
-        while token == 0 or token in self.connections or token in self.temp_connections:
+        while token == 0 or self._token_in_use(token):
             token, = struct.unpack(">L", os.urandom(4))
             token &= 0x7fffffff
             token |= 0x40000000
         return token
+
+    def _token_in_use(self, token):
+        """ private test if a connected or connecting client holds the token """
+        for client in self.connections.values():
+            if client.token == token:
+                return True
+        for client in self.temp_connections.values():
+            if client.token == token:
+                return True
+        return False
 
     def setInterval(self, interval: float):
         """
